@@ -57,6 +57,8 @@ structure RS where
   tags : List String := []
   /-- bodies of substitutions, rendered on demand: abstract commands by index -/
   table : Array Cmd := #[]
+  /-- reserved words of the constructs being generated (preferred as plain arguments inside them) -/
+  kwctx : List String := []
 
 abbrev R := StateM RS
 
@@ -588,8 +590,11 @@ def genSimple : Nat → Nat → R Cmd
     let nw ← (do if na > 0 && (← pick 3) == 0 then pure 0 else (do return 1 + (← pick 3)))
     let mut words : List AWord := []
     for i in [0:nw] do
-      if i > 0 && (← pick 12) == 0 then
-        words := words ++ [{ pieces := [.lit ('\u0001' :: (← pickFrom reservedArgs).toList)] }]
+      if i > 0 && (← pick 8) == 0 then
+        -- a reserved word as a plain argument; inside a construct prefer that construct's own keywords
+        let ctx := (← get).kwctx
+        let w ← (do if !ctx.isEmpty && (← pick 2) == 0 then pickFrom ctx else pickFrom reservedArgs)
+        words := words ++ [{ pieces := [.lit ('\u0001' :: w.toList)] }]
       else words := words ++ [← genWord depth genBody (i == 0)]
     let nr ← (do if (← pick 3) == 0 then (do return 1 + (← pick 2)) else pure 0)
     let mut redirs : List (Nat × RedirT) := []
@@ -602,24 +607,30 @@ def genCommand : Nat → Nat → R Cmd
   | 0, _ => return .simple [] [{ pieces := [.lit ['a']] }] []
   | fuel + 1, depth => do
     if depth == 0 then return ← genSimple fuel 0
+    let withKw (ws : List String) (m : R Cmd) : R Cmd := do
+      let old := (← get).kwctx
+      modify fun s => { s with kwctx := ws ++ old }
+      let r ← m
+      modify fun s => { s with kwctx := old }
+      return r
     match ← pick 14 with
     | 0 => return .subshell (← genList fuel (depth - 1))
-    | 1 => return .group (← genList fuel (depth - 1))
-    | 2 =>
+    | 1 => withKw ["}"] (do return .group (← genList fuel (depth - 1)))
+    | 2 => withKw ["fi", "then", "elif", "else"] do
       let n := 1 + (← pick 3)
       let mut cl := []
       for _ in [0:n] do cl := cl ++ [(← genList fuel (depth - 1), ← genList fuel (depth - 1))]
       let els ← (do if (← pick 2) == 0 then pure (some (← genList fuel (depth - 1))) else pure none)
       return .ifC cl els
-    | 3 => return .whileC ((← pick 2) == 0) (← genList fuel (depth - 1)) (← genList fuel (depth - 1))
-    | 4 =>
+    | 3 => withKw ["done", "do"] (do return .whileC ((← pick 2) == 0) (← genList fuel (depth - 1)) (← genList fuel (depth - 1)))
+    | 4 => withKw ["done", "do", "in"] do
       let ws ← (do if (← pick 3) == 0 then pure none else do
         let n ← pick 4
         let mut l := []
         for _ in [0:n] do l := l ++ [← genWord 0 (pure 0) false]
         pure (some l))
       return .forC (← pickFrom namePool).toList ws (← genList fuel (depth - 1)) ((← pick 6) == 0)
-    | 5 =>
+    | 5 => withKw ["esac", "in", "esac"] do
       let n ← pick 4
       let mut cl := []
       for i in [0:n] do
